@@ -3,7 +3,7 @@
 //! Both are evaluated on the drain traces of the other engines (serve with and without faults,
 //! streaming bodies, `Body::from` conversions).
 
-use crate::drain::{check_eos_truthful, check_hints, check_terminated_stays, drain, DrainOpts, Ev, Trace};
+use crate::drain::{check_eos_truthful, check_hints, check_hints_after_error, check_terminated_stays, drain, DrainOpts, Ev, Trace};
 use crate::engine::*;
 use crate::entity::{EntitySpec, FaultKind, HarnessError, ReqSpec};
 use crate::props::c01::{opts_for, Case};
@@ -18,7 +18,7 @@ use serde_json::{json, Value};
 pub const META_C12: Meta = Meta {
     id: "C12",
     level: "exploration",
-    rule: "Per-step monitor on the drain traces of: (a) serve() on generated (entity, request) cases incl. HEAD and non-GET methods, (b) the C07 fault enumeration restricted to contract-honouring streams (no fault, or an early Err), (c) streaming bodies (identity and gzip) under generated write/flush/abort/drop histories with polls in between, (d) every Body::from conversion and Body::empty over lengths 0..=4096. Oracle, retrospective: for a trace that ended cleanly with T bytes, at each step lower <= T - delivered <= upper, and serve / Body::from bodies must be exact; once is_end_stream() was true no later poll yields data or an error; a streaming body never reports end-of-stream while the model holds undelivered chunks or an undelivered abort. Non-trivial = trace with >= 3 samples in which the hint changed; distinct by fingerprint of case.",
+    rule: "Per-step monitor on the drain traces of: (a) serve() on generated (entity, request) cases incl. HEAD and non-GET methods, (b) the C07 fault enumeration restricted to contract-honouring streams (no fault, or an early Err; a body that comes to a clean end when polled again after its error must have hinted a lower bound of 0 in between), (c) streaming bodies (identity and gzip) under generated write/flush/abort/drop histories with polls in between, (d) every Body::from conversion and Body::empty over lengths 0..=4096. Oracle, retrospective: for a trace that ended cleanly with T bytes, at each step lower <= T - delivered <= upper, and serve / Body::from bodies must be exact; once is_end_stream() was true no later poll yields data or an error; a streaming body never reports end-of-stream while the model holds undelivered chunks or an undelivered abort. Non-trivial = trace with >= 3 samples in which the hint changed; distinct by fingerprint of case.",
     assumptions: &[
         "harness entity honours the Entity contract in the traces used (an early Err is within the contract; short/long streams are excluded)",
         "bodies over the drain cap are checked on a prefix: exact hint == announced - delivered",
@@ -133,6 +133,7 @@ fn check_fault(c: &FCase, acc: &mut Acc, c20: bool) -> Check {
         // a panic in the extra polls is C20's; the eos flag is still judged on what was seen.
         check_eos_truthful(t, &label).map_err(|f| Fail { sig: f.sig, msg: format!("{}; {}", f.msg, ctx()) })?;
         check_hints(t, true, &label).map_err(|f| Fail { sig: f.sig, msg: format!("{}; {}", f.msg, ctx()) })?;
+        check_hints_after_error(t, &label).map_err(|f| Fail { sig: f.sig, msg: format!("{}; {}", f.msg, ctx()) })?;
         acc.note(&label, hint_changed(t), fingerprint(c), || json!({"case": c, "trace": t.summary()}));
     }
     Ok(())
